@@ -129,6 +129,9 @@ func (in *Interp) eqVal(x, y Value) *sym.Term {
 	case *sym.Term:
 		yt := y.(*sym.Term)
 		if x.Sort.K == sym.KFP {
+			if r := in.intCompare(token.EQL, x, yt); r != nil {
+				return r
+			}
 			return c.FEq(x, yt)
 		}
 		return c.Eq(x, yt)
@@ -232,6 +235,9 @@ func (fr *frame) binop(op token.Token, t types.Type, x, y Value, pos token.Pos) 
 		panic(fmt.Sprintf("binop %s on %T, %T", op, x, y))
 	}
 	if a.Sort.K == sym.KFP {
+		if r := in.intCompare(op, a, b); r != nil {
+			return r
+		}
 		switch op {
 		case token.ADD:
 			return c.FAdd(a, b)
@@ -1075,4 +1081,56 @@ func (in *Interp) exactScaledInt(t *sym.Term, d *types.Basic) *sym.Term {
 		r = c.Neg(r)
 	}
 	return r
+}
+
+// scaledInt recognises float64(x)*2^k (k >= 0) for a 64-bit signed x.
+func scaledInt(t *sym.Term) (x *sym.Term, k int, ok bool) {
+	if t.Op == sym.OpSToF && t.Args[0].Sort.W == 64 && t.Sort == sym.F64 {
+		return t.Args[0], 0, true
+	}
+	if t.Op == sym.OpFMul && t.Args[1].IsConst() && t.Args[0].Op == sym.OpSToF && t.Args[0].Args[0].Sort.W == 64 {
+		fr, e := math.Frexp(t.Args[1].Float())
+		if fr == 0.5 && e-1 >= 0 && e-1 <= 20 {
+			return t.Args[0].Args[0], e - 1, true
+		}
+	}
+	return nil, 0, false
+}
+
+// intCompare turns a comparison of two int-derived doubles into the integer
+// comparison when the path condition bounds both integers by 2^40 (the
+// conversions and the scaling by 2^k <= 2^20 are then exact).
+func (in *Interp) intCompare(op token.Token, a, b *sym.Term) *sym.Term {
+	switch op {
+	case token.LSS, token.LEQ, token.GTR, token.GEQ, token.EQL:
+	default:
+		return nil
+	}
+	if a.IsConst() || b.IsConst() {
+		return nil // constants are handled by the threshold rewriting
+	}
+	x, ka, ok1 := scaledInt(a)
+	y, kb, ok2 := scaledInt(b)
+	if !ok1 || !ok2 {
+		return nil
+	}
+	c := in.ctx
+	lim := c.BVC(64, 1<<40)
+	small := func(v *sym.Term) *sym.Term { return c.And(c.SLt(v, lim), c.SLt(c.Neg(lim), v)) }
+	if !in.mustBeFalse(c.Not(c.And(small(x), small(y)))) {
+		return nil
+	}
+	xs := c.Mul(x, c.BVC(64, uint64(1)<<uint(ka)))
+	ys := c.Mul(y, c.BVC(64, uint64(1)<<uint(kb)))
+	switch op {
+	case token.EQL:
+		return c.Eq(xs, ys)
+	case token.LSS:
+		return c.SLt(xs, ys)
+	case token.LEQ:
+		return c.SLe(xs, ys)
+	case token.GTR:
+		return c.SLt(ys, xs)
+	}
+	return c.SLe(ys, xs)
 }
